@@ -2,6 +2,7 @@
 package c17
 
 import (
+	"time"
 	"encoding/json"
 	"fmt"
 	"testing"
@@ -380,21 +381,45 @@ func checkCodec(c *Case, o *core.Outcome) {
 	}
 }
 
+// hangLimit: an encoder call that has not returned after this long is reported as a hang
+// ("returns an error" includes returning at all). Legitimate calls of this check take
+// milliseconds; the limit leaves two orders of magnitude for a loaded machine.
+const hangLimit = 90 * time.Second
+
 func Check(c *Case) (o core.Outcome) {
 	o.Label("level=%s", c.Level)
 	o.Label("enc=%s", c.Enc)
 	o.NonTrivial = true
-	// a panic inside the library is the property's first concern: keep the labels gathered so far
-	if f := core.Guard(func() *core.Failure {
-		if c.Level == "pkg" {
-			checkPkg(c, &o)
-		} else {
-			checkCodec(c, &o)
+	// The call runs on its own goroutine so that a call which never returns can be reported;
+	// it works on a private copy of the outcome, taken over only when it finishes.
+	type res struct {
+		o core.Outcome
+		f *core.Failure
+	}
+	done := make(chan res, 1)
+	go func() {
+		lo := o
+		// a panic inside the library is the property's first concern: keep the labels gathered so far
+		f := core.Guard(func() *core.Failure {
+			if c.Level == "pkg" {
+				checkPkg(c, &lo)
+			} else {
+				checkCodec(c, &lo)
+			}
+			return nil
+		})
+		done <- res{lo, f}
+	}()
+	select {
+	case r := <-done:
+		o = r.o
+		if r.f != nil {
+			o.Fail = r.f
+			o.Label("panicked")
 		}
-		return nil
-	}); f != nil {
-		o.Fail = f
-		o.Label("panicked")
+	case <-time.After(hangLimit):
+		o.Label("hung")
+		o.Fail = core.Failf("hang", "%s encoder (%s level) did not return within %v for w=%d h=%d comps=%d depth/BA=%d BS=%d arg=%d buffer=%d bytes", c.Enc, c.Level, hangLimit, c.W, c.H, c.C, c.P+c.BA, c.BS, c.Arg, c.Buf)
 	}
 	return
 }
@@ -441,8 +466,8 @@ func bufSet(c *Case) []int {
 func Gen(t *rapid.T) *Case {
 	if rapid.IntRange(0, 2).Draw(t, "level") == 0 {
 		c := &Case{Level: "codec", Enc: rapid.SampledFrom(codecKeys).Draw(t, "codec")}
-		c.W = rapid.SampledFrom([]int{0, 1, 2, 7, 16, 65535}).Draw(t, "w")
-		c.H = rapid.SampledFrom([]int{0, 1, 2, 5}).Draw(t, "h")
+		c.W = rapid.SampledFrom([]int{0, 1, 2, 7, 16, 255, 256, 32768, 32769, 40000, 65535}).Draw(t, "w")
+		c.H = rapid.SampledFrom([]int{0, 1, 2, 5, 5, 256, 32768, 32769, 50000, 65535}).Draw(t, "h")
 		c.C = rapid.SampledFrom([]int{0, 1, 1, 2, 3, 3, 4, 65535}).Draw(t, "spp")
 		c.BA = rapid.SampledFrom([]int{0, 1, 7, 8, 8, 9, 12, 16, 16, 32, 64, 65535}).Draw(t, "ba")
 		c.BS = rapid.SampledFrom([]int{0, 1, 2, 8, 8, 12, 16, 17, 65535}).Draw(t, "bs")
@@ -453,6 +478,9 @@ func Gen(t *rapid.T) *Case {
 		need := 0
 		if c.W*c.H > 0 && c.C < 16 && c.BA <= 64 {
 			need = c.W * c.H * c.C * ((c.BA + 7) / 8)
+		}
+		if need > 1<<20 {
+			need = 4096 // frames described as larger than a mebibyte only ever come with a short buffer
 		}
 		c.Buf = rapid.SampledFrom([]int{0, 1, need - 1, need, need, need + 1}).Draw(t, "buf")
 		if c.Buf < 0 {
